@@ -30,6 +30,7 @@ pub fn run(ctx: &Ctx) -> (Report, Meta) {
     .floor("base_configs_with_rejections", 30)
     .floor("low_level_dense_toggle_pairs", 500);
     let g = GenOpts {
+        stiff_for_implicit: true,
         allow_first_step: true,
         allow_max_step: true,
         allow_max_steps: true,
